@@ -3,6 +3,7 @@ package conslog
 import (
 	"fmt"
 	"math/rand"
+	"strings"
 	"sync"
 
 	"github.com/Shopify/sarama"
@@ -26,6 +27,8 @@ type RunOpts struct {
 	// NRandomIndex: random transactional shapes with 3-5 transactions in flight at once, the broker's index in a
 	// random permutation, sometimes with the head of the log deleted inside a transaction
 	NRandomIndex int
+	// NPipe: how many of the end-to-end runs are also replayed step by step through the pipeline model
+	NPipe int
 }
 
 // CorpusItem: a hand-picked transactional shape (Crafted), optionally with the first Cut units deleted (non-zero
@@ -225,6 +228,9 @@ func fetchSizes(rng *rand.Rand, l Log) (def, max int32, exact bool) {
 type work struct {
 	term string
 	side cf.Sidecar
+	// pipeline trace of the same run (hooks/consumer_pipeline.patch), if the tree has the hooks
+	pipe      string
+	pipeSteps int
 }
 
 // RunAll generates the scenarios, runs them, and writes cases_<tag>_parse_NNN.v / cases_<tag>_e2e_NNN.v.
@@ -446,6 +452,23 @@ func RunAll(o RunOpts) {
 		ew.Add(w.term, w.side)
 	}
 	ew.Close()
+
+	// ---------------------------------------------------------------- local trace validation of the pipeline model
+	tw := &cf.Writer{Dir: o.Out, Prefix: "cases_" + o.Tag + "_pipe", Imports: "From SV Require Import Consumer.Parse Consumer.Log Consumer.Pipeline Consumer.PipelineCorr.",
+		CaseType: "tcase", MismatchFn: "mismatches_pipe", ShardSize: 12}
+	np := 0
+	for _, w := range results {
+		if w.pipe == "" || np >= o.NPipe || w.pipeSteps > 400 {
+			continue
+		}
+		np++
+		side := w.side
+		side.Kind = "pipeline/" + strings.TrimPrefix(side.Kind, "e2e/")
+		side.Monitor = nil
+		side.Nontrivial = w.pipeSteps > 6
+		tw.Add(w.pipe, side)
+	}
+	tw.Close()
 }
 
 type E2ECaseJSON struct {
@@ -530,5 +553,11 @@ func runOneE2E(seed int64, sc E2EScenario) work {
 		}
 	}
 	js := E2EJSON(sc, res)
-	return work{term: E2ECoq(sc, res), side: cf.Sidecar{Case: js, Kind: "e2e/" + js.Format, Nontrivial: len(res.Delivered) > 0, Monitor: E2EMonitor(sc, res)}}
+	w := work{term: E2ECoq(sc, res), side: cf.Sidecar{Case: js, Kind: "e2e/" + js.Format, Nontrivial: len(res.Delivered) > 0, Monitor: E2EMonitor(sc, res)}}
+	if w.side.Monitor == nil {
+		if t, n, ok := PipelineCase(sc, res); ok {
+			w.pipe, w.pipeSteps = t, n
+		}
+	}
+	return w
 }
